@@ -29,8 +29,9 @@ class Budget:
     def consume(self, cost: int = 1) -> bool:
         if cost < 1:
             raise ValueError("cost must be >= 1.")
-        now = time.monotonic()
         with self._lock:
+            # Read the clock under the lock so timestamps are stored in lock order.
+            now = time.monotonic()
             self._prune(now)
             if len(self._events) + cost > self.max_retries:
                 return False
@@ -39,7 +40,7 @@ class Budget:
             return True
 
     def remaining(self) -> int:
-        now = time.monotonic()
         with self._lock:
+            now = time.monotonic()
             self._prune(now)
             return max(self.max_retries - len(self._events), 0)
